@@ -15,7 +15,7 @@ def generate(rng, tier):
     n = 120 if tier == "quick" else 800
     cases = []
     for i in range(n):
-        win = ["grid", "between", "outside", "lo_only", "hi_only", "hi_grid", "none", "grid"][i % 8]
+        win = ["grid", "between", "outside", "lo_only", "hi_only", "hi_grid", "none", "near", "near"][i % 9]
         cases.append(F.gen_ft_case(rng, tier, lorch=(i % 3 == 0), channel=2, win=win))
     return cases
 
